@@ -112,9 +112,15 @@ impl<R: Read + Write> PacketConn<R> {
         loop {
             if self.remaining != 0 {
                 match packet(&self.bytes[self.start..]) {
-                    Ok((rest, p)) => {
+                    Ok((rest, (seq, p, in_order))) => {
                         self.remaining = rest.len();
-                        return Ok(Some(p));
+                        if !in_order {
+                            return Err(io::Error::new(
+                                io::ErrorKind::InvalidData,
+                                "client sent the packets of a message out of order",
+                            ));
+                        }
+                        return Ok(Some((seq, p)));
                     }
                     Err(nom::Err::Incomplete(_)) | Err(nom::Err::Error(_)) => {}
                     Err(nom::Err::Failure(ctx)) => {
@@ -194,35 +200,32 @@ impl Deref for Packet {
     }
 }
 
-fn packet(i: &[u8]) -> nom::IResult<&[u8], (u8, Packet)> {
+// The returned flag says whether the packets of the message carried consecutive sequence ids.
+fn packet(i: &[u8]) -> nom::IResult<&[u8], (u8, Packet, bool)> {
     nom::combinator::map(
         nom::sequence::pair(
             nom::multi::fold_many0(
                 fullpacket,
-                || (0, None),
-                |(seq, pkt): (_, Option<Packet>), (nseq, p)| {
-                    let pkt = if let Some(mut pkt) = pkt {
-                        assert_eq!(nseq, seq + 1);
+                || (0, None, true),
+                |(seq, pkt, in_order): (u8, Option<Packet>, bool), (nseq, p)| {
+                    if let Some(mut pkt) = pkt {
                         pkt.extend(p);
-                        Some(pkt)
+                        (nseq, Some(pkt), in_order && nseq == seq.wrapping_add(1))
                     } else {
-                        Some(Packet(Vec::from(p)))
-                    };
-                    (nseq, pkt)
+                        (nseq, Some(Packet(Vec::from(p))), in_order)
+                    }
                 },
             ),
             onepacket,
         ),
         move |(full, last)| {
             let seq = last.0;
-            let pkt = if let Some(mut pkt) = full.1 {
-                assert_eq!(last.0, full.0 + 1);
+            if let Some(mut pkt) = full.1 {
                 pkt.extend(last.1);
-                pkt
+                (seq, pkt, full.2 && seq == full.0.wrapping_add(1))
             } else {
-                Packet(Vec::from(last.1))
-            };
-            (seq, pkt)
+                (seq, Packet(Vec::from(last.1)), true)
+            }
         },
     )(i)
 }
